@@ -22,7 +22,7 @@ THOROUGH = [("quick_ver", 10 ** 7), ("quick_faults", 10 ** 7), ("quick_third", 1
             ("thorough_ver", 10000), ("thorough_faults", 12000), ("thorough_third", 8000), ("thorough_mixed", 8000), ("thorough_recreate", 8000)]
 # design-level witnesses: (cfg suffix, invariants that MUST be violated)
 WITNESS = [("witness_guard", ["Safe"]),       # the "wait until Established" guard switched off -> StartOnlyEstablished
-           ("witness_asis", ["Converges"])]   # the code as written does not converge after a failed status update / StartWatches (D16, D17)
+           ("witness_asis", ["Converges"])]   # the code as written does not converge after a failed status update / StartWatches (D17, D18)
 FIXED_QUICK, FIXED = "fixed_quick", "fixed"      # the candidate repairs make every rule hold
 
 
@@ -88,7 +88,7 @@ def drive_and_judge(ctx, scs, shards, binp=None):
     viols, nlines = ctx.monitor("MonXrdLifecycle", prefix, par=8, heap="4g")
     for formula, line, scid in viols:
         parts = scid.split("/")
-        base = dict(by_id.get(parts[0], {"id": parts[0]}))
+        base = dict(by_id.get(scid) or by_id.get(parts[0], {"id": parts[0]}))
         base["id"] = scid
         if len(parts) > 1:
             base["variant"] = parts[1]       # how the model's "fail" was realised: error | conflict
@@ -113,6 +113,9 @@ def hits(prefix, limit=250000):
                 if n > limit:
                     return h
                 e = json.loads(line)
+                if e["ev"] == "end" and not e["post"]["xrd"]["claim"] and e["post"]["xrd"]["ex"] and e["post"]["runc"] and e["post"]["crdc"]["st"] == "live":
+                    # not judged (P7): nothing stops the claim controller / removes the claim CRD when claimNames are removed
+                    inc("observation:claimNames-removed-controller-and-crd-stay")
                 if e["ev"] == "call" and e["actor"] in ("def", "off"):
                     own = {"def": "x", "off": "c"}[e["actor"]]
                     if e["abs"] == "start" and e["outcome"] == "ok":
